@@ -21,6 +21,8 @@ type Server struct {
 	OnFrame func(s *Server, f *Frame)
 	// MaxFrames makes the thread exit after that many frames (0 = unlimited).
 	MaxFrames int
+	// Compressed: the connection negotiated cellblock compression.
+	Compressed bool
 }
 
 func be32(b []byte) int { return int(binary.BigEndian.Uint32(b)) }
@@ -57,7 +59,7 @@ func (s *Server) Run() {
 			return
 		}
 		c.C2S = rest
-		f, err := ParseRequest(fb)
+		f, err := ParseRequestC(fb, s.Compressed)
 		if err != nil {
 			s.Errors = append(s.Errors, err.Error())
 			c.SrvClose = true
